@@ -2,7 +2,6 @@ package checks
 
 import (
 	"context"
-	"sync/atomic"
 	"encoding/base64"
 	"encoding/hex"
 	"encoding/json"
@@ -10,6 +9,7 @@ import (
 	"math/rand"
 	"reflect"
 	"strings"
+	"sync/atomic"
 	"testing"
 	"time"
 
